@@ -35,7 +35,7 @@ package api
 //@ ghost readdr map[int][]model.AddressEntityType
 // everything a Publish may change (it runs the core handlers synchronously); the message-processing chain uses the same
 // set, so it also lists what the discovery handlers change: the removal log and the (in-place) diff of a full notification
-//@ modset PUBLISH = evn, ev, dn, dh, dp, dsp, world, spine.Events.handlers, spawn, outmisc, ntn, nts, ntsrc, ntdst, ntcmd
+//@ modset PUBLISH = evn, ev, dn, dh, dp, dsp, world, spine.Events.handlers, spawn, outmisc, ntn, nts, ntsrc, ntdst, ntcmd, nsn, nsdev, nsaddr, nscmd
 //@ modset DISCOVERY = ren, redev, readdr, cells(model.NodeManagementDetailedDiscoveryDataType), cells(model.NetworkManagementEntityDescriptionDataType), cells(model.NodeManagementDetailedDiscoveryEntityInformationType), cells(model.NodeManagementDetailedDiscoveryFeatureInformationType), cells(model.NetworkManagementStateChangeType), cells(model.EntityTypeType)
 
 // Assumed contracts of the api interfaces, used at interface call sites.
